@@ -917,4 +917,274 @@ theorem iter_ok (gv : Graph) (hsym : EdgeSym gv) (s : State) (w : Nat) : StepOK 
               · exact traverseNode_ok gv hsym s w next _ .down hw hl hlen
             · exact StepOK.unchanged gv w s _
 
+/-! ## the invariant -/
+
+/-- the path of a real worker: empty once it has left the loop, otherwise a walk from the root through the visible
+graph whose entries after the root are relevant to the worker -/
+def PathInv (g : Graph) (s : State) (v : Nat) : Prop :=
+  ((s.wd v).path = [] ∧ (s.wd v).pc = .done) ∨
+    PathOK (Adj (vis g s)) (fun x => relevant g v x = true) g.root (s.wd v).path
+
+/-- the part of the invariant that does not concern worker `w` itself (`w` is in the middle of a step and holds
+no mark) -/
+structure PInvO (g : Graph) (s : State) (w : Nat) : Prop where
+  path : ∀ v, v ≠ w → v < s.workers.length → PathInv g s v
+  markRel : ∀ n v, (s.nd n).started = some v → relevant g v n = true
+  markPc : ∀ n v, (s.nd n).started = some v → v ≠ w ∧ ((s.wd v).pc.node? = some n ∨ (s.wd v).pc = .failed)
+  testOwn : ∀ v, v ≠ w → ∀ n, (s.wd v).pc.node? = some n →
+    g.idIn v n = true ∧ (s.wd v).path.getLast? = some n ∧ 2 ≤ (s.wd v).path.length
+
+/-- the invariant between steps -/
+structure PInv (g : Graph) (s : State) : Prop where
+  path : ∀ v, v < s.workers.length → PathInv g s v
+  markRel : ∀ n v, (s.nd n).started = some v → relevant g v n = true
+  markPc : ∀ n v, (s.nd n).started = some v → (s.wd v).pc.node? = some n ∨ (s.wd v).pc = .failed
+  testOwn : ∀ v n, (s.wd v).pc.node? = some n →
+    g.idIn v n = true ∧ (s.wd v).path.getLast? = some n ∧ 2 ≤ (s.wd v).path.length
+
+theorem wd_setWd_proj {α} (P : WorkerD → α) (s : State) (w : Nat) (f : WorkerD → WorkerD) (hf : ∀ d, P (f d) = P d) (v : Nat) :
+    P ((s.setWd w f).wd v) = P (s.wd v) := by
+  unfold State.setWd State.wd
+  simp only [List.getD_eq_getElem?_getD, List.getElem?_modify]
+  cases h : s.workers[v]? with
+  | none => simp
+  | some d =>
+    by_cases hm : w = v
+    · simp [hm, hf]
+    · simp [hm]
+
+theorem PInvO.transfer {g : Graph} {s s' : State} {w : Nat} (h : PInvO g s w)
+    (hlen : s'.workers.length = s.workers.length)
+    (hhid : ∀ x, x ∈ s'.hidden → x ∈ s.hidden)
+    (hoth : ∀ v, v ≠ w → (s'.wd v).path = (s.wd v).path ∧ (s'.wd v).pc = (s.wd v).pc)
+    (hmarks : ∀ i, (s'.nd i).started = (s.nd i).started ∨ (s'.nd i).started = none) : PInvO g s' w := by
+  have back : ∀ n v, (s'.nd n).started = some v → (s.nd n).started = some v := by
+    intro n v hs
+    rcases hmarks n with h' | h'
+    · rw [← h']; exact hs
+    · rw [h'] at hs; cases hs
+  refine ⟨fun v hv hvl => ?_, fun n v hs => h.markRel n v (back n v hs), fun n v hs => ?_, fun v hv n hn => ?_⟩
+  · obtain ⟨hp, hpc⟩ := hoth v hv
+    unfold PathInv
+    rw [hp, hpc]
+    rcases h.path v hv (by rw [← hlen]; exact hvl) with h' | h'
+    · exact Or.inl h'
+    · exact Or.inr (h'.mono (fun a b => adj_vis_mono g s s' hhid a b))
+  · obtain ⟨hv, hpc⟩ := h.markPc n v (back n v hs)
+    rw [(hoth v hv).2]
+    exact ⟨hv, hpc⟩
+  · obtain ⟨hp, hpc⟩ := hoth v hv
+    rw [hp]; rw [hpc] at hn
+    exact h.testOwn v hv n hn
+
+theorem PInv.ofO {g : Graph} {s : State} {w : Nat} (h : PInvO g s w) (hp : w < s.workers.length → PathInv g s w)
+    (hpc : (s.wd w).pc.node? = none) : PInv g s := by
+  refine ⟨fun v hv => ?_, h.markRel, fun n v hs => (h.markPc n v hs).2, fun v n hn => ?_⟩
+  · by_cases hvw : v = w
+    · subst hvw; exact hp hv
+    · exact h.path v hvw hv
+  · by_cases hvw : v = w
+    · subst hvw; rw [hpc] at hn; cases hn
+    · exact h.testOwn v hvw n hn
+
+theorem PInv.toO {g : Graph} {s : State} {w : Nat} (h : PInv g s) (hpc : (s.wd w).pc.node? = none)
+    (hnf : (s.wd w).pc ≠ .failed) : PInvO g s w := by
+  refine ⟨fun v _ hv => h.path v hv, h.markRel, fun n v hs => ⟨?_, h.markPc n v hs⟩, fun v _ n hn => h.testOwn v n hn⟩
+  intro hvw
+  subst hvw
+  rcases h.markPc n v hs with h' | h'
+  · rw [hpc] at h'; cases h'
+  · exact hnf h'
+
+/-- the four moves keep the path a walk from the root -/
+theorem pathOK_eff (g : Graph) (s1 s' : State) (w : Nat) (p p' : List Nat)
+    (hhid : ∀ x, x ∈ s'.hidden → x ∈ s1.hidden)
+    (hp : PathOK (Adj (vis g s1)) (fun x => relevant g w x = true) g.root p)
+    (he : PathEff (vis g s1) w p p') :
+    PathOK (Adj (vis g s')) (fun x => relevant g w x = true) g.root p' := by
+  have hp' := hp.mono (fun a b => adj_vis_mono g s1 s' hhid a b)
+  rcases he with h | ⟨h, hl⟩ | h | ⟨last, c, hl, h, hrel, hadj⟩
+  · rw [h]; exact hp'
+  · rw [h]
+    rcases hp'.dropLast with h0 | h0
+    · exfalso
+      have := congrArg List.length h0
+      simp at this
+      omega
+    · exact h0
+  · rw [h, vis_root]; exact .root
+  · rw [h]
+    exact .push p last c hp' hl (adj_vis_mono g s1 s' hhid _ _ hadj) (by rw [← vis_relevant g s1]; exact hrel)
+
+/-- worker `w` has entered the last node of its path and ends its step inside the execution or dead -/
+theorem PInvO.enter {g : Graph} {s s' : State} {w next : Nat} (h : PInvO g s w)
+    (hp : PathOK (Adj (vis g s)) (fun x => relevant g w x = true) g.root (s.wd w).path)
+    (he : Eff w (some next) s s') (hpath : (s'.wd w).path = (s.wd w).path)
+    (hlast : (s.wd w).path.getLast? = some next) (hlen : 2 ≤ (s.wd w).path.length)
+    (hpc : (s'.wd w).pc = .failed ∨ ((s'.wd w).pc.node? = some next ∧ g.idIn w next = true)) : PInv g s' := by
+  have hrel : relevant g w next = true := (hp.last_two (by omega) next hlast).2
+  have hhid : ∀ x, x ∈ s'.hidden → x ∈ s.hidden := by intro x hx; rw [← he.hidden]; exact hx
+  refine ⟨fun v hv => ?_, fun n v hs => ?_, fun n v hs => ?_, fun v n hn => ?_⟩
+  · by_cases hvw : v = w
+    · subst hvw
+      right
+      rw [hpath]
+      exact hp.mono (fun a b => adj_vis_mono g s s' hhid a b)
+    · unfold PathInv
+      rw [he.others v hvw]
+      rcases h.path v hvw (by rw [← he.workersLen]; exact hv) with h' | h'
+      · exact Or.inl h'
+      · exact Or.inr (h'.mono (fun a b => adj_vis_mono g s s' hhid a b))
+  · rcases he.marks n with h' | h' | ⟨h1, h2⟩
+    · rw [h'] at hs; exact h.markRel n v hs
+    · rw [h'] at hs; cases hs
+    · rw [h2] at hs
+      have h3 : next = n := Option.some.inj h1
+      have h4 : w = v := Option.some.inj hs
+      rw [← h3, ← h4]; exact hrel
+  · rcases he.marks n with h' | h' | ⟨h1, h2⟩
+    · rw [h'] at hs
+      obtain ⟨hv, hpc'⟩ := h.markPc n v hs
+      rw [he.others v hv]; exact hpc'
+    · rw [h'] at hs; cases hs
+    · rw [h2] at hs
+      have h3 : next = n := Option.some.inj h1
+      have h4 : w = v := Option.some.inj hs
+      rw [← h3, ← h4]
+      rcases hpc with h5 | h5
+      · exact Or.inr h5
+      · exact Or.inl h5.1
+  · by_cases hvw : v = w
+    · subst hvw
+      rcases hpc with h5 | h5
+      · rw [h5] at hn; cases hn
+      · rw [h5.1] at hn
+        have : next = n := Option.some.inj hn
+        rw [← this, hpath]
+        exact ⟨h5.2, hlast, hlen⟩
+    · rw [he.others v hvw] at hn ⊢
+      exact h.testOwn v hvw n hn
+
+/-! ## the lazy expansion step -/
+
+theorem reveal_frame (g : Graph) (s : State) (f w : Nat) :
+    (reveal g s f w).nodes = s.nodes ∧ (reveal g s f w).workers = s.workers ∧
+      ∀ x, x ∈ (reveal g s f w).hidden → x ∈ s.hidden := by
+  unfold reveal
+  dsimp only
+  split
+  · exact ⟨rfl, rfl, fun _ h => h⟩
+  · exact ⟨rfl, rfl, fun _ h => (List.mem_filter.mp h).1⟩
+
+theorem prepare_frame (g : Graph) (s : State) (w : Nat) :
+    (prepare g s w).nodes = s.nodes ∧ (prepare g s w).workers.length = s.workers.length ∧
+      (∀ v, ((prepare g s w).wd v).path = (s.wd v).path ∧ ((prepare g s w).wd v).pc = (s.wd v).pc) ∧
+      ∀ x, x ∈ (prepare g s w).hidden → x ∈ s.hidden := by
+  unfold prepare
+  dsimp only
+  cases (s.wd w).path.getLast? with
+  | none => exact ⟨rfl, rfl, fun _ => ⟨rfl, rfl⟩, fun _ h => h⟩
+  | some next =>
+    dsimp only
+    have hwd : ∀ (u : Bool) v, ((s.setWd w (fun d => { d with unexplored := u })).wd v).path = (s.wd v).path ∧
+        ((s.setWd w (fun d => { d with unexplored := u })).wd v).pc = (s.wd v).pc := fun u v =>
+      ⟨wd_setWd_proj (·.path) s w (fun d => { d with unexplored := u }) (fun _ => rfl) v,
+       wd_setWd_proj (·.pc) s w (fun d => { d with unexplored := u }) (fun _ => rfl) v⟩
+    split
+    · obtain ⟨h1, h2, h3⟩ := reveal_frame g (s.setWd w (fun d => { d with unexplored := !(unexploredNodes (vis g s) s).isEmpty })) next w
+      refine ⟨h1, by rw [h2]; simp [State.setWd], fun v => ?_, h3⟩
+      have : ∀ v, (reveal g (s.setWd w (fun d => { d with unexplored := !(unexploredNodes (vis g s) s).isEmpty })) next w).wd v =
+          (s.setWd w (fun d => { d with unexplored := !(unexploredNodes (vis g s) s).isEmpty })).wd v := by
+        intro v; unfold State.wd; rw [h2]
+      rw [this]; exact hwd _ v
+    · exact ⟨rfl, by simp [State.setWd], fun v => hwd _ v, fun _ h => h⟩
+
+theorem iterL_ok (g : Graph) (hsym : EdgeSym g) (s : State) (w : Nat) :
+    ∃ s1, (s1 = s ∨ s1 = prepare g s w) ∧ StepOK (vis g s1) w s1 (iterL g s w) := by
+  unfold iterL
+  split
+  · exact ⟨s, Or.inl rfl, iter_ok (vis g s) (edgeSym_vis g s hsym) s w⟩
+  · exact ⟨prepare g s w, Or.inr rfl, iter_ok (vis g (prepare g s w)) (edgeSym_vis g _ hsym) (prepare g s w) w⟩
+
+theorem nd_of_nodes_eq {s s' : State} (h : s'.nodes = s.nodes) (i : Nat) : s'.nd i = s.nd i := by
+  unfold State.nd; rw [h]
+
+/-- the invariant across one iteration of worker `w` -/
+theorem iterL_inv (g : Graph) (hsym : EdgeSym g) (s : State) (w : Nat) (ho : PInvO g s w)
+    (hp : PathOK (Adj (vis g s)) (fun x => relevant g w x = true) g.root (s.wd w).path)
+    (hpc : (s.wd w).pc.node? = none) :
+    (iterL g s w).1.workers.length = s.workers.length ∧
+    ((iterL g s w).2.2 = .cont → PInvO g (iterL g s w).1 w ∧
+      PathOK (Adj (vis g (iterL g s w).1)) (fun x => relevant g w x = true) g.root ((iterL g s w).1.wd w).path ∧
+      ((iterL g s w).1.wd w).pc.node? = none) ∧
+    ((iterL g s w).2.2 = .suspend ∨ (iterL g s w).2.2 = .exit → PInv g (iterL g s w).1) ∧
+    (∀ what, (iterL g s w).2.2 = .raise what → PInv g ((iterL g s w).1.setWd w (fun d => { d with pc := .failed }))) := by
+  obtain ⟨s1, hs1, _, hok⟩ := iterL_ok g hsym s w
+  -- the state after the expansion step
+  have pre : s1.workers.length = s.workers.length ∧ PInvO g s1 w ∧
+      PathOK (Adj (vis g s1)) (fun x => relevant g w x = true) g.root (s1.wd w).path ∧ (s1.wd w).pc.node? = none := by
+    rcases hs1 with h | h
+    · rw [h]; exact ⟨rfl, ho, hp, hpc⟩
+    · obtain ⟨h1, h2, h3, h4⟩ := prepare_frame g s w
+      rw [h]
+      refine ⟨h2, ho.transfer h2 h4 (fun v _ => h3 v) (fun i => Or.inl (by rw [nd_of_nodes_eq h1])), ?_, ?_⟩
+      · rw [(h3 w).1]; exact hp.mono (fun a b => adj_vis_mono g s _ h4 a b)
+      · rw [(h3 w).2]; exact hpc
+  obtain ⟨hl1, ho1, hp1, hpc1⟩ := pre
+  refine ⟨?_, ?_⟩
+  · rcases hok with ⟨he, _⟩ | ⟨_, _, _, he, _⟩
+    · rw [he.workersLen, hl1]
+    · rw [he.workersLen, hl1]
+  generalize iterL g s w = r at hok
+  -- marking a worker as failed keeps the others' part of the invariant
+  have failSet : ∀ sx : State, Eff w none sx (sx.setWd w (fun d => { d with pc := .failed })) := fun sx => eff_setWd w none sx _
+  have failPc : ∀ sx : State, w < sx.workers.length → ((sx.setWd w (fun d => { d with pc := .failed })).wd w).pc = .failed ∧
+      ((sx.setWd w (fun d => { d with pc := .failed })).wd w).path = (sx.wd w).path := by
+    intro sx hwl
+    rw [wd_setWd_eq sx w _ hwl]; exact ⟨rfl, rfl⟩
+  rcases hok with ⟨he, hq⟩ | ⟨next, hlast, hlen, he, hpath, hfl⟩
+  · -- nothing entered
+    have hhid : ∀ x, x ∈ r.1.hidden → x ∈ s1.hidden := by intro x hx; rw [← he.hidden]; exact hx
+    have ho' : PInvO g r.1 w := ho1.transfer he.workersLen hhid (fun v hv => by rw [he.others v hv]; exact ⟨rfl, rfl⟩)
+      (fun i => by
+        rcases he.marks i with h | h | h
+        · exact Or.inl h
+        · exact Or.inr h
+        · exact absurd h.1 (by simp))
+    rcases hq with ⟨hpe, hpc'⟩ | ⟨hnil, hdone, hexit⟩
+    · have hp' := pathOK_eff g s1 r.1 w _ _ hhid hp1 hpe
+      have hpcn : (r.1.wd w).pc.node? = none := by
+        rcases hpc' with h | h
+        · rw [h]; exact hpc1
+        · rw [h]; rfl
+      refine ⟨fun _ => ⟨ho', hp', hpcn⟩, fun _ => PInv.ofO ho' (fun _ => Or.inr hp') hpcn, fun what _ => ?_⟩
+      have e2 := failSet r.1
+      have ho2 : PInvO g (r.1.setWd w (fun d => { d with pc := .failed })) w :=
+        ho'.transfer e2.workersLen (fun x hx => by rw [← e2.hidden]; exact hx)
+          (fun v hv => by rw [e2.others v hv]; exact ⟨rfl, rfl⟩) (fun i => Or.inl rfl)
+      by_cases hwl : w < r.1.workers.length
+      · obtain ⟨f1, f2⟩ := failPc r.1 hwl
+        refine PInv.ofO ho2 (fun _ => Or.inr ?_) (by rw [f1]; rfl)
+        rw [f2]
+        exact hp'.mono (fun a b => adj_vis_mono g r.1 _ (fun x hx => by rw [← e2.hidden]; exact hx) a b)
+      · refine PInv.ofO ho2 (fun hwl2 => absurd (by rw [← e2.workersLen]; exact hwl2) hwl) ?_
+        have : (r.1.setWd w (fun d => { d with pc := .failed })).wd w = {} := by
+          unfold State.wd
+          rw [List.getD_eq_getElem?_getD, List.getElem?_eq_none (by rw [e2.workersLen]; omega)]; rfl
+        rw [this]; rfl
+    · refine ⟨fun h => ?_, fun _ => PInv.ofO ho' (fun _ => Or.inl ⟨hnil, hdone⟩) (by rw [hdone]; rfl), fun what h => ?_⟩
+      · rw [hexit] at h; cases h
+      · rw [hexit] at h; cases h
+  · -- the last node of the path entered
+    have hw1 : w < s1.workers.length := lt_of_path_ne_nil s1 w (by intro h; rw [h] at hlen; simp at hlen)
+    refine ⟨fun h => ?_, fun h => ?_, fun what h => ?_⟩
+    · rcases hfl with ⟨_, h', _⟩ | ⟨h', _⟩ <;> rw [h'] at h <;> cases h
+    · rcases hfl with ⟨_, h', _⟩ | ⟨_, hid, ph, dir, uid, tag, hpcx⟩
+      · rcases h with h | h <;> rw [h'] at h <;> cases h
+      · refine ho1.enter hp1 he hpath hlast hlen (Or.inr ⟨by rw [hpcx]; rfl, ?_⟩)
+        rw [← vis_idIn g s1]; exact hid
+    · have e2 := failSet r.1
+      obtain ⟨f1, f2⟩ := failPc r.1 (by rw [he.workersLen]; exact hw1)
+      exact ho1.enter hp1 (he.trans e2.weaken) (by rw [f2]; exact hpath) hlast hlen (Or.inl f1)
+
 end I2N.Trav
